@@ -8,6 +8,7 @@ import Dos.MergeDriver
 import Dos.MultiDriver
 import Dos.ConcDriver
 import Dos.BackupDriver
+import Dos.Sample
 
 open Dos
 
@@ -39,6 +40,13 @@ def stepAll (a : All) (line : String) : All × String :=
   else if l.startsWith "bk " then
     let (d, out) := BackupDriver.stepLine a.bk (l.drop 3).toString
     ({ a with bk := d }, out)
+  else if l.startsWith "sample " then
+    -- the reads of the AUTO heuristic on a stream of the given size: offset.length,…
+    match (l.drop 7).toString.trimAscii.toString.toNat? with
+    | some size =>
+      let rs := Sample.sampleReads size
+      (a, if rs.isEmpty then "-" else String.intercalate "," (rs.map (fun r => s!"{r.1}.{r.2}")))
+    | none => (a, "bad-op")
   else if l == "reset" then ({}, "ok")
   else (a, "bad-op unknown-protocol")
 
